@@ -1,7 +1,7 @@
 (* Non-vacuity of Props/Pipeline.v: a concrete run of the generated Keyboard (German layout through
    AnyLayout, Set 2) on the wire. *)
 From Coq Require Import NArith Arith Bool List String Lia.
-From PK Require Import Base.Outcome Base.Machine Gen.All Impl Spec.Frame Spec.ScanAuto Spec.Event Spec.Pipeline
+From PK Require Import Base.Outcome Base.Machine Gen.All Impl Spec.Frame Spec.ScanAuto Spec.EventRec Spec.Pipeline
   Syn.Set2 Props.PipelineGen Props.Pipeline.
 Import ListNotations.
 Local Open Scope N_scope.
